@@ -450,15 +450,10 @@ Proof.
 Qed.
 
 (* ---------- documentation: temperature fixed points ---------------------------- *)
-(* rows known to be wrong in the documentation (finding F10): the Celsius /
-   Kelvin fixed points are printed as 273,25 instead of 273.15.  When the
-   docstring is repaired this list must become [] and [doc_tables_refuted]
-   be dropped (see notes/design_C20.md). *)
-Definition doc_known_bad : list (string * string) := [("°C", "K"); ("K", "°C")]%string.
-
-Definition equiv_key_bad (e : doc_equiv) : bool :=
-  existsb (fun k => seqb (fst k) (de_from e) && seqb (snd k) (de_to e)) doc_known_bad.
-
+(* every fixed point `a u = b v` holds exactly, every `a u ≅ b v` to the
+   printed number of places.  (Finding F10 — `273,25` for 273.15 — was repaired
+   in /repo, commit f078f5b; the former witness row is the regression case
+   corpus/C20/f10_doc_273_25.json and [former_bad_row_rejected] below.) *)
 Definition doc_equiv_holds (e : doc_equiv) : Prop :=
   exists x, equiv_in C (de_amt e) (de_from e) (de_to e) = Some x /\
             if de_exact e then x == de_val e
@@ -477,32 +472,19 @@ Proof.
     rewrite E in H. exact H.
 Qed.
 
-Lemma doc_equivs_all :
-  forallb (fun e => equiv_key_bad e || doc_equiv_ok C e) doc_equivs = true.
+Lemma doc_equivs_all : forallb (doc_equiv_ok C) doc_equivs = true.
 Proof. vm_compute. reflexivity. Qed.
 
-Theorem doc_equivs_partial e : In e doc_equivs -> equiv_key_bad e = false ->
-  doc_equiv_holds e.
+Theorem doc_equivs_match e : In e doc_equivs -> doc_equiv_holds e.
 Proof.
-  intros I B. pose proof (proj1 (forallb_forall _ _) doc_equivs_all e I) as H.
-  cbv beta in H. rewrite B in H. cbn [orb] in H. apply doc_equiv_ok_sound. exact H.
+  intros I. apply doc_equiv_ok_sound.
+  exact (proj1 (forallb_forall _ _) doc_equivs_all e I).
 Qed.
 
-(* the witness: `0 °C = ... = 273,25 K` — the model (and the library)
-   compute 273.15 K *)
-Theorem doc_tables_refuted :
-  exists e x, In e doc_equivs /\ de_exact e = true /\
-              equiv_in C (de_amt e) (de_from e) (de_to e) = Some x /\
-              ~ x == de_val e /\
-              de_from e = "°C"%string /\ de_to e = "K"%string /\
-              de_val e == 27325 # 100 /\ x == 27315 # 100.
-Proof.
-  exists (mkDocEquiv "°C" (Qmake 0 1) "K" (Qmake 1093 4) true 2), (5463 # 20).
-  split; [vm_compute; tauto|]. split; [reflexivity|].
-  split; [vm_compute; reflexivity|].
-  split; [intros X; vm_compute in X; discriminate|].
-  repeat split.
-Qed.
+(* regression for F10: the row the documentation used to print is rejected *)
+Lemma former_bad_row_rejected :
+  doc_equiv_ok C (mkDocEquiv "°C" (Qmake 0 1) "K" (Qmake 27325 100) true 2) = false.
+Proof. vm_compute. reflexivity. Qed.
 
 (* ---------- any amount: C01 instantiated ---------------------------------------- *)
 Definition view_check (e : string * (string * Q)) : bool :=
